@@ -66,6 +66,8 @@ type c04FakeConn struct {
 	muxed   []*c04FakeStream
 	// how long OpenStream takes after the muxed stream exists
 	openDelay time.Duration
+	// OpenStream blocks until the caller's context ends
+	blockOpen bool
 }
 
 func (c *c04FakeConn) doClose() error {
@@ -94,7 +96,17 @@ func (c *c04FakeConn) AcceptStream() (network.MuxedStream, error) {
 	<-c.closeCh
 	return nil, errors.New("closed")
 }
-func (c *c04FakeConn) OpenStream(context.Context) (network.MuxedStream, error) {
+func (c *c04FakeConn) OpenStream(ctx context.Context) (network.MuxedStream, error) {
+	if c.blockOpen {
+		// the muxer cannot open a stream (e.g. yamux with a full backlog): it blocks until the
+		// caller's context ends and reports that
+		select {
+		case <-ctx.Done():
+			return nil, ctx.Err()
+		case <-c.closeCh:
+			return nil, errors.New("closed")
+		}
+	}
 	c.mu.Lock()
 	if c.closed {
 		c.mu.Unlock()
@@ -254,6 +266,10 @@ func c04CloseCase(t *testing.T, out *verifh.Out, r *verifh.Rand) (hung bool) {
 		if r.Chance(1, 2) {
 			fc.openDelay = time.Duration(r.Intn(1500)) * time.Microsecond
 		}
+		if r.Chance(1, 6) {
+			fc.blockOpen = true
+		}
+		blockOpen := fc.blockOpen
 		nstr := r.Intn(4)
 		obs[i] = c04ConnObs{fc: fc, streams: make([]c04StreamObs, nstr)}
 		cr := r.Fork()
@@ -275,7 +291,15 @@ func c04CloseCase(t *testing.T, out *verifh.Out, r *verifh.Rand) (hung bool) {
 				go func(k int) {
 					defer swg.Done()
 					c04Yield(sr)
-					s, err := c.NewStream(context.Background())
+					sctx := context.Background()
+					if blockOpen {
+						// the stream open ends in a deadline expiry inside the muxer
+						var cancel context.CancelFunc
+						sctx, cancel = context.WithTimeout(sctx, time.Duration(1+sr.Intn(3))*time.Millisecond)
+						defer cancel()
+						out.Cover("close.stream_open_deadline_in_muxer")
+					}
+					s, err := c.NewStream(sctx)
 					if err == nil {
 						obs[i].streams[k].openOK = 1
 						if resetOne && k == 0 {
